@@ -515,7 +515,7 @@ def run_elk_source(ctx, pool, count):
         if a.get("outcome") == "value" and got == want:
             continue
         ok = False
-        if reported < 3:
+        if reported < 1:
             reported += 1
             ctx.violation("property-fails", {"elk": src},
                           f"Elk program over hash maps/sets: outcome={a.get('outcome')} panic={a.get('panic', '')!r} "
@@ -541,5 +541,5 @@ def run(ctx):
         return
     n = ctx.n(3000, 100000)
     lines = vlib.corpus_lines("C17") + [gen_line(ctx.rng, pool, ctx) for _ in range(n)]
-    vlib.correspond(ctx, lines, oracle=oracle, minimise=minimise, label="HashMap")
+    vlib.correspond(ctx, lines, oracle=oracle, minimise=minimise, label="HashMap", max_report=2)
     run_elk_source(ctx, pool, ctx.n(150, 3000))
